@@ -15,8 +15,15 @@ Structure
       terms produced by executing the real function on symbolic inputs).
   (c) _pack_data: the REAL function is executed on a symbolic byte array (vlib/symnp_ext.BVArray: z3 Array Int -> BitVec 8, length
       2m / 2m+1 for a symbolic m); nibble layout goals for an ARBITRARY index k are discharged by z3 (bit-vectors + linear integers).
-  (d) quantize_tensor on real flatbuffer objects over the finite table bits x shape (odd / even element count) x buffer 0 / own buffer
-      x quantized_data None / present x per-tensor / per-channel: what is written, where, and nothing else.
+  (d) quantize_tensor on real flatbuffer objects over the finite table bits x shape (odd / even element count) x per-tensor / per-channel x
+      {constant: own buffer with stored data + quantized_data, activation: own empty buffer + no quantized_data, buffer 0 with either}:
+      what is written, where, and nothing else.
+      CONTRACT CLAUSE  requires(quantize_tensor):  buffers[tensor.buffer].data is not None (tensor.buffer != 0)  <=>  quant_params.quantized_data
+      is not None.  Without it the function retypes a constant and leaves its float32 bytes; it is a precondition the CALLERS establish:
+  (d') call sites: every registered materialize function emits parameters satisfying the clause for every tensor (family `materialize`:
+      constants carry their own quantized data of their own shape, activations carry none); the instruction generator, the performer's
+      dispatch, insert_dequant and insert_quant hand `parameters` on unchanged (family `callsites`: dataflow obligations on the real AST);
+      insert_quant applies quantize_tensor to a NEW tensor on buffer 0.
   (e) float16 casting: the stored array is content.astype(float16) and nothing else (opaque content: parametric in the data)."""
 import fractions, importlib, itertools, struct, time
 import numpy as np, z3
@@ -26,6 +33,7 @@ from contracts import c04_common as cc, c04_minigraph as mg
 from contracts.c04_common import G, F32
 
 LEVEL = 'proof'
+DI_, QI_ = 'transformations/dequant_insert.py', 'transformations/quant_insert.py'
 FNS = {
     'uniform_quantize_tensor.symmetric_quantize_bias_tensor': (cc.UQ, 'symmetric_quantize_bias_tensor'),
     'uniform_quantize_tensor._round_and_clip': (cc.UQ, '_round_and_clip'),
@@ -38,7 +46,19 @@ FNS = {
     'float_casting.materialize_fc_conv': (cc.FC, 'materialize_fc_conv'),
     'float_casting.materialize_conv2d_transpose': (cc.FC, 'materialize_conv2d_transpose'),
     'float_casting.materialize_embedding_lookup': (cc.FC, 'materialize_embedding_lookup'),
+    'min_max_quantize_utils.materialize_standard_op': (cc.UTILS, 'materialize_standard_op'),
+    'dequant_insert.insert_dequant': (DI_, 'insert_dequant'), 'quant_insert.insert_quant': (QI_, 'insert_quant'), 'transformation_utils.add_new_activation_tensor': ('transformations/transformation_utils.py', 'add_new_activation_tensor'),
+    'transformation_performer.TransformationPerformer._apply_single_transformation': ('transformation_performer.py', 'TransformationPerformer._apply_single_transformation'),
+    'transformation_performer.TransformationPerformer._update_instructions': ('transformation_performer.py', 'TransformationPerformer._update_instructions'),
+    'transformation_performer.TransformationPerformer.__init__': ('transformation_performer.py', 'TransformationPerformer.__init__'),
+    'transformation_instruction_generator.TransformationInstructionsGenerator._quant_params_to_transformation_insts': ('transformation_instruction_generator.py', 'TransformationInstructionsGenerator._quant_params_to_transformation_insts'),
+    'min_max_quantize_utils._materialize_standard_op_with_same_as_output_scale': (cc.UTILS, '_materialize_standard_op_with_same_as_output_scale'),
+    'min_max_quantize_utils._materialize_standard_op_with_same_as_input_scale': (cc.UTILS, '_materialize_standard_op_with_same_as_input_scale'),
+    'min_max_quantize_utils._get_tensor_transformation_params_wrapper': (cc.UTILS, '_get_tensor_transformation_params_wrapper'),
 }
+for _f in ('materialize_reshape', 'materialize_transpose', 'materialize_split', 'materialize_strided_slice', 'materialize_average_pool_2d', 'materialize_concatenation', 'materialize_fc_conv', 'materialize_conv2d_transpose',
+           'materialize_add', 'materialize_sub', 'materialize_mul', 'materialize_batch_matmul', 'materialize_embedding_lookup', 'materialize_softmax_and_logistic', 'materialize_tanh', 'materialize_gelu', 'materialize_mean', 'materialize_rsqrt'):
+    FNS['naive_min_max_quantize.' + _f] = (cc.NMM, _f)
 R = z3.RealVal; DIV, RINT = symnp.DIV, symnp.RINT; HALF = R('1/2')
 def ab(t): return z3.If(t >= 0, t, -t)
 def within(e, b): return z3.And(e <= b, -e <= b)
@@ -139,28 +159,28 @@ def native_pack(M, bw, parity, model):
         for seed in range(3):
             d = ((np.arange(n) * (37 + 20 * seed) + 11 + seed) % 256).astype(np.uint8)
             try: got = bytes(np.asarray(M.qt._pack_data(bw, d)).astype(np.uint8))
-            except Exception as e: return dict(confirmed=True, inputs=dict(bitwidth=bw, data=[int(v) for v in d]), observed=repr(e))
-            if got != ref_pack(d): return dict(confirmed=True, inputs=dict(bitwidth=bw, data=[int(v) for v in d]), observed=dict(packed=list(got), expected=list(ref_pack(d))))
+            except Exception as e: return dict(confirmed=True, inputs=dict(family='pack', bitwidth=bw, data=[int(v) for v in d]), observed=repr(e))
+            if got != ref_pack(d): return dict(confirmed=True, inputs=dict(family='pack', bitwidth=bw, data=[int(v) for v in d]), observed=dict(packed=list(got), expected=list(ref_pack(d))))
     return dict(confirmed=False, inputs=dict(model=model), observed='the counter-model did not reproduce natively')
 
 # ------------------------------------------------------------------------------------------------ (d) quantize_tensor
 TTYPE = {4: 17, 8: 9, 16: 7, 32: 2, 64: 4}           # TFLite schema TensorType: INT4 17, INT8 9, INT16 7, INT32 2, INT64 4 ; FLOAT16 1, FLOAT32 0
 QT_SHAPES = [((3, 1), 'n3-odd'), ((3, 2), 'n6-even'), ((5,), 'n5-odd-1d'), ((1,), 'n1')]
 
-def qt_case(M, bits, shape, own_buffer, has_data, per_channel, nonlinear=False):
+def qt_case(M, bits, shape, bufkind, has_data, per_channel, nonlinear=False):
     """one real tensor (float32, with its original constant) + neighbours, one TransformationInput; returns everything the checks need"""
     S = M.schema; qt = M.qtyping; tu = importlib.import_module('ai_edge_quantizer.transformations.transformation_utils')
     n = int(np.prod(shape)); lo, hi = (-8, 7) if bits <= 4 else (-100, 100)
     orig = (np.arange(n, dtype=np.float32) * 0.37 - 1.0).reshape(shape)
     bufs = [S.BufferT()]; bufs[0].data = None
     sg = S.SubGraphT(); sg.tensors = []; sg.operators = []; sg.inputs = np.array([], np.int32); sg.outputs = np.array([], np.int32)
-    def add_tensor(name, data, buffer0=False):
+    def add_tensor(name, data, kind='own-buffer'):
         t = S.TensorT(); t.name = name; t.shape = np.array(data.shape, np.int32); t.type = 0; t.quantization = None
-        if buffer0: t.buffer = 0
+        if kind == 'buffer0': t.buffer = 0
         else:
-            b = S.BufferT(); b.data = np.frombuffer(data.tobytes(), dtype=np.uint8); bufs.append(b); t.buffer = len(bufs) - 1
+            b = S.BufferT(); b.data = np.frombuffer(data.tobytes(), dtype=np.uint8) if kind == 'own-buffer' else None; bufs.append(b); t.buffer = len(bufs) - 1
         sg.tensors.append(t); return t
-    other = add_tensor(b'other', np.array([1.0, 2.0, 3.0], np.float32)); T = add_tensor(b'T', orig, buffer0=not own_buffer); other2 = add_tensor(b'other2', np.array([4.0], np.float32))
+    other = add_tensor(b'other', np.array([1.0, 2.0, 3.0], np.float32)); T = add_tensor(b'T', orig, bufkind); other2 = add_tensor(b'other2', np.array([4.0], np.float32))
     if nonlinear:
         qd = orig.astype(np.float16) if bits == 16 else orig.astype(np.float32)
         params = qt.NonLinearQuantParams(num_bits=bits, quantized_data=qd if has_data else None)
@@ -178,13 +198,19 @@ def snapshot(c):
                 tens=[(t.name, tuple(t.shape), t.type, t.buffer, t.quantization) for t in c['sg'].tensors], nt=len(c['sg'].tensors), nops=len(c['sg'].operators))
 
 def fam_quantize_tensor(M):
-    goals = []; Fq = 'quantize_tensor.quantize_tensor'; qt = M.qtyping
-    table = [(bits, shp, lab, own, has, pc, False) for bits in (4, 8, 16, 32, 64) for shp, lab in QT_SHAPES for own in (True, False) for has in (True, False) for pc in (False, True) if not (pc and len(shp) == 1)]
-    table += [(16, shp, lab, own, has, False, True) for shp, lab in QT_SHAPES for own in (True, False) for has in (True, False)] + [(32, (3, 2), 'n6-even', True, True, False, True)]
-    for bits, shp, lab, own, has, pc, nonlin in table:
-        tag = f'{"float" if nonlin else "int"}{bits}.{lab}.{"own-buffer" if own else "buffer0"}.{"data" if has else "no-data"}.{"per-channel" if pc else "per-tensor"}'
-        inputs = dict(family='quantize_tensor', bits=bits, shape=shp, own_buffer=own, has_data=has, per_channel=pc, nonlinear=nonlin)
-        c = qt_case(M, bits, shp, own, has, pc, nonlin); before = snapshot(c); p = c['params']; T = c['T']; n = int(np.prod(shp))
+    goals = []; Fq = 'quantize_tensor.quantize_tensor'; qt = M.qtyping; consistency = {}
+    # rows admitted by the `requires` of the contract (REQUIRES_QT): a constant (own buffer WITH stored data) comes with quantized_data; a tensor
+    # without stored data (its own empty buffer) comes without; buffer 0 (the shared empty buffer) with either
+    ROWS = (('own-buffer', True), ('empty-buffer', False), ('buffer0', True), ('buffer0', False))
+    table = [(bits, shp, lab, bk, has, pc, False) for bits in (4, 8, 16, 32, 64) for shp, lab in QT_SHAPES for bk, has in ROWS for pc in (False, True) if not (pc and len(shp) == 1)]
+    table += [(16, shp, lab, bk, has, False, True) for shp, lab in QT_SHAPES for bk, has in ROWS] + [(32, (3, 2), 'n6-even', 'own-buffer', True, False, True)]
+    for bits, shp, lab, bk, has, pc, nonlin in table:
+        own = bk == 'own-buffer'
+        tag = f'{"float" if nonlin else "int"}{bits}.{lab}.{bk}.{"data" if has else "no-data"}.{"per-channel" if pc else "per-tensor"}'
+        inputs = dict(family='quantize_tensor', bits=bits, shape=shp, buffer=bk, has_data=has, per_channel=pc, nonlinear=nonlin)
+        c = qt_case(M, bits, shp, bk, has, pc, nonlin); before = snapshot(c); p = c['params']; T = c['T']; n = int(np.prod(shp))
+        stored0 = c['bufs'][T.buffer].data is not None if T.buffer else False
+        if (stored0 and p.quantized_data is None) or (T.buffer and not stored0 and p.quantized_data is not None): raise AssertionError('row outside the precondition of the quantize_tensor contract')
         calls = []; real = M.qt._pack_data
         def spy(bw, data):
             r = real(bw, data); calls.append((bw, data, r)); return r
@@ -208,7 +234,7 @@ def fam_quantize_tensor(M):
                            clause='buffers[tensor.buffer].data is the object _pack_data(num_bits, uint8 view of quantized_data.tobytes()) returned; byte length == ceil(n/2) (<= 4 bit) / n*itemsize; decoding the nibbles gives the codes back; every other buffer untouched'))
         else:
             ok = not calls and after['buf'] == before['buf'] and all(a is b0 for a, b0 in zip(after['bufobj'], before['bufobj'])) and after['nb'] == before['nb']
-            goals.append(G(f'{tag}.no-buffer-is-written', Fq, ok=bool(ok), inputs=inputs, observed=dict(calls=len(calls)), clause='tensor.buffer == 0 or quantized_data is None => no buffer changes (buffer 0 is the shared empty buffer)'))
+            goals.append(G(f'{tag}.no-buffer-is-written', Fq, ok=bool(ok), inputs=inputs, observed=dict(calls=len(calls)), clause='tensor.buffer == 0, or a tensor without stored data and without quantized_data => no buffer changes (buffer 0 is the shared empty buffer)'))
         # ---- annotation
         qz = T.quantization
         if nonlin:
@@ -222,11 +248,21 @@ def fam_quantize_tensor(M):
             goals.append(G(f'{tag}.type-scale-zeroPoint-quantizedDimension-written-from-the-parameters', Fq, ok=bool(ok), inputs=inputs,
                            observed=dict(type=T.type, scale=[float(v) for v in (qz.scale if qz is not None and qz.scale is not None else [])], zeroPoint=[int(v) for v in (qz.zeroPoint if qz is not None and qz.zeroPoint is not None else [])], qdim=getattr(qz, 'quantizedDimension', None)),
                            clause=f'tensor.type == {TTYPE[bits]} (INT{bits}); quantization.scale == flatten(scale) as float32, zeroPoint == flatten(zero_point) as int64, equal lengths (one, or the size of the quantized dimension); quantizedDimension written iff not None (else the schema default 0)'))
+        # ---- the stored bytes must be what the WRITTEN type and the shape imply (aggregated per (kind, bits, data given?) over shapes and granularities)
+        if own:
+            stored_len = len(after['buf'][T.buffer]); el = {17: None, 9: 1, 7: 2, 2: 4, 4: 8, 1: 2, 0: 4}.get(T.type); want = (n + 1) // 2 if T.type == 17 else (n * el if el else -1)
+            key = (('float' if nonlin else 'int') + str(bits), has); rec = consistency.setdefault(key, dict(rows=0, bad=[]))
+            rec['rows'] += 1
+            if stored_len != want: rec['bad'].append(dict(row=tag, tensor_type=T.type, elements=n, stored_bytes=stored_len, bytes_implied_by_type_and_shape=want))
         # ---- frame and result
         t_after = after['tens']; t_before = before['tens']
         ok = (after['nt'] == before['nt'] and after['nops'] == before['nops'] and t_after[0] == t_before[0] and t_after[2] == t_before[2] and t_after[1][:2] == t_before[1][:2] and t_after[1][3] == t_before[1][3]
               and ret == qt.TransformationInfo(0, 0, 1))
         goals.append(G(f'{tag}.frame-and-result', Fq, ok=bool(ok), inputs=inputs, clause='other tensors, the tensor\'s name / shape / buffer index, operator list unchanged; returns TransformationInfo(0, 0, tensor_id)'))
+    for (kind, has), rec in sorted(consistency.items()):
+        goals.append(G(f'{kind}.constant-with-stored-data.stored-bytes-have-the-length-implied-by-the-written-type-and-shape', Fq, ok=not rec['bad'],
+                       inputs=dict(family='quantize_tensor', kind=kind, has_data=has, rows=rec['rows'], first_failing_row=(rec['bad'][0] if rec['bad'] else None)), observed=rec['bad'][:3],
+                       clause='requires(stored data => quantized_data is not None): after quantize_tensor, len(buffer) == ceil(n/2) (INT4) / n * itemsize(tensor.type) for every constant row of the table (every shape / granularity)'))
     return goals
 
 # ------------------------------------------------------------------------------------------------ (e) float16 casting
@@ -261,6 +297,182 @@ def fam_fp16(M):
         goals.append(G(f'{tag}.every-other-tensor-stays-float', Fm, ok=bool(ok), backend='cpython-exec', inputs=inputs, clause='input / output / bias entries: NO_QUANTIZE, no parameters'))
     return goals
 
+# ------------------------------------------------------------------------------------------------ every materialize path: constants get THEIR data, activations get none
+E2E = []          # (cases, failures) of the decode-within-a-step check done on the side (bounded stand-in)
+def expected_len(ttype, n): return (n + 1) // 2 if ttype == 17 else n * {9: 1, 7: 2, 2: 4, 4: 8, 1: 2, 0: 4}[ttype]
+
+def fam_materialize(M):
+    goals = []; qt = M.qtyping; T = qt.TensorQuantizationConfig; regs = cc.registry(M); tu = importlib.import_module('ai_edge_quantizer.transformations.transformation_utils')
+    QT_, DQ_ = qt.QuantTransformation.QUANTIZE_TENSOR, qt.QuantTransformation.ADD_DEQUANTIZE
+    W = lambda b=8, g='CHANNELWISE': T(b, True, qt.QuantGranularity(g))
+    srqs = {f'srq-a{b}{"sym" if s_ else "asym"}': qt.OpQuantizationConfig(activation_tensor_config=T(b, s_), weight_tensor_config=W(), compute_precision=qt.ComputePrecision.INTEGER) for b, s_ in ((8, False), (8, True), (16, True))}
+    wonly = {'drq-w8': qt.OpQuantizationConfig(weight_tensor_config=W(), compute_precision=qt.ComputePrecision.INTEGER), 'drq-w4-tensorwise': qt.OpQuantizationConfig(weight_tensor_config=W(4, 'TENSORWISE'), compute_precision=qt.ComputePrecision.INTEGER),
+             'weight-only-w8': qt.OpQuantizationConfig(weight_tensor_config=W(), compute_precision=qt.ComputePrecision.FLOAT, explicit_dequantize=True),
+             'weight-only-w4-asym': qt.OpQuantizationConfig(weight_tensor_config=T(4, False, qt.QuantGranularity.CHANNELWISE), compute_precision=qt.ComputePrecision.FLOAT, explicit_dequantize=True)}
+    f16 = {'fp16': qt.OpQuantizationConfig(weight_tensor_config=T(16, dtype=qt.TensorDataType.FLOAT), compute_precision=qt.ComputePrecision.FLOAT, explicit_dequantize=True)}
+    weight_ops = set(cc.QDIM_REF) | {'BATCH_MATMUL'}; cases = fails = 0
+    plan = []
+    for opn in regs['min_max_uniform_quantize']:
+        if opn in ('INPUT', 'OUTPUT'): continue
+        nin = len(mg.build(opn).ins); pats = [()] + [(i,) for i in range(nin)] + ([tuple(range(nin))] if nin > 1 else [])
+        if opn in weight_ops: pats = [()]          # the constant operand of these ops is the weight (every constant of such an op is treated as a weight by the library)
+        for cname, cfg in srqs.items():
+            if opn == 'EMBEDDING_LOOKUP': continue                      # not a static-range op in the policy
+            plan += [('min_max_uniform_quantize', opn, cname, cfg, pat) for pat in pats]
+        if opn in weight_ops: plan += [('min_max_uniform_quantize', opn, cname, cfg, ()) for cname, cfg in wonly.items()]
+    plan += [('float_casting', opn, 'fp16', f16['fp16'], ()) for opn in regs['float_casting']]
+    for alg, opn, cname, cfg, pat in plan:
+        m = mg.build(opn)
+        for k in pat: m.make_const(m.ins[k])
+        oi, gi = mg.infos(m, qt, cfg); fn = regs[alg][opn]; Fm = ('naive_min_max_quantize.' if alg.startswith('min') else 'float_casting.') + fn.__name__
+        if Fm not in FNS: Fm = 'min_max_quantize_utils.materialize_standard_op'
+        tag = f'{opn}.{cname}.' + ('constant-operands-' + '+'.join(m.names[m.ins[k]] for k in pat) if pat else 'weights-only-constants'); inputs = dict(family='materialize', algorithm=alg, op=opn, config=cname, constant_activation_operands=[m.names[m.ins[k]] for k in pat])
+        qsv = {}
+        if alg.startswith('min'):
+            qsv = M.nmm.init_qsvs(oi, gi)                                  # what calibration starts from: true min/max of constants, {} for activations
+            for kname in list(qsv):
+                if not qsv[kname]:
+                    r_ = len(m.tensors[m.names.index(kname)].shape); qsv[kname] = {'min': np.full((1,) * r_, -1.5, np.float32), 'max': np.full((1,) * r_, 2.25, np.float32)}
+        res = None
+        with cc.guarded(goals, tag, Fm, inputs): res = fn(oi, gi, qsv)
+        if res is None: continue
+        badA, badB, nconst = [], [], 0
+        for r in res:
+            tid = m.names.index(r.tensor_name); t = m.tensors[tid]; has = m.has_data(tid); n = int(np.prod(t.shape))
+            for e in ([r.producer] if r.producer else []) + list(r.consumers or []):
+                p = e.parameters
+                if has and (QT_ in e.transformations or DQ_ in e.transformations):
+                    nconst += 1; qd = getattr(p, 'quantized_data', None)
+                    want_dt = np.dtype('float16') if isinstance(p, qt.NonLinearQuantParams) else (cc.int_dtype(p.num_bits) if p is not None else None)
+                    okA = p is not None and isinstance(qd, np.ndarray) and qd.shape == tuple(int(d) for d in t.shape) and qd.dtype == want_dt
+                    # consequence on the model: the REAL quantize_tensor applied with these very parameters
+                    sg = M.schema.SubGraphT(); sg.tensors = m.tensors; sg.operators = [m.op]; conseq = None
+                    if p is not None:
+                        try:
+                            M.qt.quantize_tensor(tu.TransformationInput(tid, [], m.buffers, sg, -1, [0], p)); stored = len(bytes(np.asarray(m.buffers[t.buffer].data).tobytes()))
+                            conseq = dict(tensor_type_after=t.type, stored_bytes=stored, bytes_implied_by_type_and_shape=expected_len(t.type, n)); cases += 1
+                            if stored != expected_len(t.type, n): fails += 1
+                        except Exception as ex: conseq = repr(ex)
+                    if not okA: badA.append(dict(tensor=r.tensor_name, transformations=[x.name for x in e.transformations], quantized_data=None if qd is None else str(getattr(qd, 'shape', qd)), after_quantize_tensor=conseq))
+                if not has and p is not None and getattr(p, 'quantized_data', None) is not None:
+                    conseq = None
+                    if DQ_ in e.transformations:       # consequence on the model: the REAL insert_dequant with these very parameters
+                        try:
+                            di = importlib.import_module('ai_edge_quantizer.transformations.dequant_insert'); sg = M.schema.SubGraphT(); sg.tensors = m.tensors; sg.operators = [m.op]
+                            sg.inputs = np.array([], np.int32); sg.outputs = np.array(m.outs, np.int32)
+                            di.insert_dequant(tu.TransformationInput(tid, [], m.buffers, sg, 0, [-1], p)); bd = m.buffers[t.buffer].data
+                            conseq = dict(activation_buffer_index=t.buffer, bytes_now_stored_in_the_activation_buffer=None if bd is None else len(bytes(np.asarray(bd).tobytes())), elements_of_the_activation=n)
+                        except Exception as ex: conseq = repr(ex)
+                    badB.append(dict(tensor=r.tensor_name, tensor_shape=[int(d) for d in t.shape], transformations=[x.name for x in e.transformations], carries_quantized_data_of_shape=list(p.quantized_data.shape), after_insert_dequant=conseq))
+        if nconst:
+            goals.append(G(f'{tag}.every-rewritten-constant-carries-its-own-quantized-data', Fm, ok=not badA, inputs=inputs, observed=badA,
+                           clause='every OpToTensorParams with QUANTIZE_TENSOR / ADD_DEQUANTIZE for a tensor that HAS constant data: parameters.quantized_data is an array of the tensor\'s shape and of the dtype num_bits implies (otherwise quantize_tensor retypes the tensor and leaves the float32 bytes)'))
+        goals.append(G(f'{tag}.no-activation-carries-quantized-data', Fm, ok=not badB, inputs=inputs, observed=badB,
+                       clause='parameters emitted for a tensor WITHOUT constant data have quantized_data None (otherwise insert_dequant / quantize_tensor store another tensor\'s bytes in the activation\'s buffer)'))
+    E2E[:] = [(cases, fails)]
+    return goals
+
+# ------------------------------------------------------------------------------------------------ call sites of quantize_tensor hand `parameters` on unchanged
+DI, QI, TP, TIG, TU = 'transformations/dequant_insert.py', 'transformations/quant_insert.py', 'transformation_performer.py', 'transformation_instruction_generator.py', 'transformations/transformation_utils.py'
+def _dotted(n):
+    import ast
+    if isinstance(n, ast.Name): return n.id
+    if isinstance(n, ast.Attribute):
+        b = _dotted(n.value); return None if b is None else b + '.' + n.attr
+    return None
+def _calls(node, name):
+    import ast
+    return [c for c in ast.walk(node) if isinstance(c, ast.Call) and _dotted(c.func) == name]
+def _stores(node):
+    """dotted names of everything assigned / augmented / deleted / bound by for, with, walrus inside node"""
+    import ast
+    out = []
+    for n in ast.walk(node):
+        tg = []
+        if isinstance(n, ast.Assign): tg = n.targets
+        elif isinstance(n, (ast.AugAssign, ast.AnnAssign, ast.NamedExpr)): tg = [n.target]
+        elif isinstance(n, (ast.For, ast.AsyncFor)): tg = [n.target]
+        elif isinstance(n, ast.Delete): tg = n.targets
+        elif isinstance(n, (ast.With, ast.AsyncWith)): tg = [i.optional_vars for i in n.items if i.optional_vars is not None]
+        def tgt(t):
+            if isinstance(t, (ast.Tuple, ast.List)):
+                for e in t.elts: tgt(e)
+            elif isinstance(t, ast.Starred): tgt(t.value)
+            elif isinstance(t, ast.Subscript): out.append((_dotted(t.value) or '?') + '[]')       # element store: mutates the container, rebinds nothing
+            else: out.append(_dotted(t) or '?')
+        for t in tg: tgt(t)
+    return out
+def _posargs(call, names):
+    """argument expressions of a call by parameter name (positional order `names`)"""
+    d = {names[i]: a for i, a in enumerate(call.args) if i < len(names)}
+    d.update({k.arg: k.value for k in call.keywords if k.arg}); return d
+TI_FIELDS = ['tensor_id', 'op_codes', 'buffers', 'subgraph', 'producer', 'consumers', 'quant_params']
+INST_FIELDS = ['transformation', 'tensor_id', 'producer', 'consumers', 'parameters']
+
+def fam_callsites(M):
+    import ast
+    goals = []; mut = getattr(M, 'mut', {}); inputs = dict(family='callsites'); qt = M.qtyping
+    fn = lambda rel, q: core.Fn(rel, q, src_override=mut.get(rel))
+    # ---- insert_dequant: quantize_tensor(transformation_input) on the untouched input
+    f = fn(DI, 'insert_dequant'); par = f.node.args.args[0].arg; cs = _calls(f.node, 'quantize_tensor.quantize_tensor'); st = _stores(f.node)
+    ok = len(cs) == 1 and len(cs[0].args) == 1 and not cs[0].keywords and _dotted(cs[0].args[0]) == par and not any(x == par or x in (f'{par}.quant_params', f'{par}.tensor_id', f'{par}.buffers', f'{par}.subgraph') for x in st)
+    goals.append(G('passes-its-own-input-to-quantize_tensor', 'dequant_insert.insert_dequant', ok=bool(ok), backend='ast-dataflow', inputs=inputs, observed=dict(calls=len(cs), stores=[x for x in st if x.startswith(par)]),
+                   clause='insert_dequant calls quantize_tensor.quantize_tensor exactly once, on its own parameter object, and never rebinds it or its tensor_id / quant_params / buffers / subgraph: the tensor and the parameters are the instruction\'s'))
+    # ---- insert_quant: quantize_tensor on a NEW activation tensor (buffer 0) with the instruction's parameters
+    f = fn(QI, 'insert_quant'); par = f.node.args.args[0].arg; cs = _calls(f.node, 'quantize_tensor.quantize_tensor'); st = _stores(f.node); ok = False; obs = {}
+    if len(cs) == 1 and len(cs[0].args) == 1 and isinstance(cs[0].args[0], ast.Call) and _dotted(cs[0].args[0].func) == 'transformation_utils.TransformationInput':
+        a = _posargs(cs[0].args[0], TI_FIELDS); new = _dotted(a.get('tensor_id'))
+        defs = [n for n in ast.walk(f.node) if isinstance(n, ast.Assign) and any(_dotted(t) == new for t in n.targets)]
+        ok = (new is not None and st.count(new) == 1 and len(defs) == 1 and isinstance(defs[0].value, ast.Call) and _dotted(defs[0].value.func) == 'transformation_utils.add_new_activation_tensor'
+              and _dotted(a.get('quant_params')) == f'{par}.quant_params' and _dotted(a.get('buffers')) == f'{par}.buffers' and _dotted(a.get('subgraph')) == f'{par}.subgraph'
+              and not any(x == par or x in (f'{par}.quant_params', f'{par}.buffers', f'{par}.subgraph') for x in st))
+        obs = dict(new_tensor=new, definitions=len(defs))
+    goals.append(G('quantizes-a-new-activation-tensor-with-the-given-parameters', 'quant_insert.insert_quant', ok=bool(ok), backend='ast-dataflow', inputs=inputs, observed=obs,
+                   clause='insert_quant calls quantize_tensor exactly once, on TransformationInput(id returned by add_new_activation_tensor, ..., transformation_input.quant_params) with the same buffers / subgraph'))
+    f2 = fn(TU, 'add_new_activation_tensor')
+    b0 = [n for n in ast.walk(f2.node) if isinstance(n, ast.Assign) and any((_dotted(t) or '').endswith('.buffer') for t in n.targets)]
+    ok = len(b0) == 1 and isinstance(b0[0].value, ast.Constant) and b0[0].value.value == 0
+    goals.append(G('new-activation-tensor-is-on-buffer-0', 'transformation_utils.add_new_activation_tensor', ok=bool(ok), backend='ast-dataflow', inputs=inputs, clause='the only store to .buffer in add_new_activation_tensor is `= 0`: the tensor insert_quant quantizes has no stored data, so quantize_tensor writes no buffer for it'))
+    # native confirmation on a real graph: parameters that (wrongly) carried data would still not be stored by insert_quant
+    m = mg.build('GELU'); sg = M.schema.SubGraphT(); sg.tensors = m.tensors; sg.operators = [m.op]; sg.inputs = np.array([m.ins[0]], np.int32); sg.outputs = np.array(m.outs, np.int32)
+    tu = importlib.import_module('ai_edge_quantizer.transformations.transformation_utils'); qi = importlib.import_module('ai_edge_quantizer.transformations.quant_insert')
+    pq = qt.UniformQuantParams(8, None, np.array([0.5], np.float32), np.array([3], np.int8), False, quantized_data=np.arange(16, dtype=np.int8).reshape(1, 2, 2, 4))
+    nb = len(m.buffers); before = [b.data for b in m.buffers]
+    with cc.guarded(goals, 'native-run', 'quant_insert.insert_quant', inputs):
+        qi.insert_quant(tu.TransformationInput(m.ins[0], [], m.buffers, sg, -1, [0], pq)); newt = sg.tensors[-1]
+        ok = newt.buffer == 0 and newt.type == 9 and len(m.buffers) == nb and all(a is b for a, b in zip(before, [b.data for b in m.buffers])) and m.tensors[m.ins[0]].type == 0 and m.tensors[m.ins[0]].quantization is None
+        goals.append(G('native-run.new-tensor-on-buffer-0-no-buffer-written-source-tensor-untouched', 'quant_insert.insert_quant', ok=bool(ok), inputs=inputs, clause='real insert_quant on a real graph: the new tensor is INT8 on buffer 0, no buffer object changes, the source tensor keeps FLOAT32 and no quantization record'))
+    # ---- performer: dispatch table and the TransformationInput it builds
+    f = fn(TP, 'TransformationPerformer._apply_single_transformation'); cs = _calls(f.node, 'transformation_utils.TransformationInput'); ok = False; obs = {}
+    if len(cs) == 1:
+        a = _posargs(cs[0], TI_FIELDS); inst = (_dotted(a.get('quant_params')) or '.').rpartition('.')[0]
+        outer = [c for c in ast.walk(f.node) if isinstance(c, ast.Call) and cs[0] in c.args and isinstance(c.func, ast.Subscript) and _dotted(c.func.value) == 'self._transformation_registration' and _dotted(c.func.slice) == f'{inst}.transformation']
+        ok = (_dotted(a.get('quant_params')) == f'{inst}.parameters' and _dotted(a.get('tensor_id')) == f'{inst}.tensor_id' and len(outer) == 1 and len(outer[0].args) == 1 and not outer[0].keywords
+              and not any(x.endswith('.parameters') or x.endswith('.quantized_data') for x in _stores(f.node)))
+        # `instruction` is bound exactly once, to <first parameter>.instructions[<second parameter>]
+        pa = [a_.arg for a_ in f.node.args.args]; defs = [n for n in ast.walk(f.node) if isinstance(n, ast.Assign) and any(_dotted(t) == inst for t in n.targets)]
+        ok = ok and _stores(f.node).count(inst) == 1 and len(defs) == 1 and isinstance(defs[0].value, ast.Subscript) and _dotted(defs[0].value.value) == f'{pa[1]}.instructions' and _dotted(defs[0].value.slice) == pa[2]
+        obs = dict(instruction=inst, dispatch_calls=len(outer), definitions=len(defs))
+    goals.append(G('dispatch-receives-instruction.tensor_id-and-instruction.parameters', 'transformation_performer.TransformationPerformer._apply_single_transformation', ok=bool(ok), backend='ast-dataflow', inputs=inputs, observed=obs,
+                   clause='the registered transformation is called on TransformationInput(instruction.tensor_id, ..., instruction.parameters) where instruction is transformation_inst.instructions[transformation_index], bound once; no .parameters store'))
+    src_tp = mut.get(TP, core.read_source(TP)); bad = [x for x in _stores(ast.parse(src_tp)) if x.endswith('.parameters') or x.endswith('.quantized_data')]
+    goals.append(G('no-store-to-parameters-anywhere-in-the-performer', 'transformation_performer.TransformationPerformer._update_instructions', ok=not bad, backend='ast-dataflow', inputs=inputs, observed=bad, clause='transformation_performer.py contains no assignment to a .parameters / .quantized_data attribute'))
+    tp = importlib.import_module('ai_edge_quantizer.transformation_performer'); di = importlib.import_module('ai_edge_quantizer.transformations.dequant_insert'); qtm = importlib.import_module('ai_edge_quantizer.transformations.quantize_tensor')
+    regt = tp.TransformationPerformer()._transformation_registration; T_ = qt.QuantTransformation
+    ok = regt.get(T_.QUANTIZE_TENSOR) is qtm.quantize_tensor and regt.get(T_.ADD_DEQUANTIZE) is di.insert_dequant and regt.get(T_.ADD_QUANTIZE) is qi.insert_quant
+    goals.append(G('registration-table', 'transformation_performer.TransformationPerformer.__init__', ok=bool(ok), inputs=inputs, clause='QUANTIZE_TENSOR -> quantize_tensor.quantize_tensor, ADD_DEQUANTIZE -> insert_dequant, ADD_QUANTIZE -> insert_quant (the function objects themselves)'))
+    # ---- instruction generator: every instruction's parameters field is an OpToTensorParams.parameters of the SAME tensor's entry, read not built
+    src = mut.get(TIG, core.read_source(TIG)); tree = ast.parse(src); cs = _calls(tree, 'qtyping.TransformationInst'); badc = []
+    for c in cs:
+        a = _posargs(c, INST_FIELDS); d = _dotted(a.get('parameters')) if not isinstance(a.get('parameters'), ast.Subscript) else None
+        pv = a.get('parameters')
+        if not (isinstance(pv, ast.Attribute) and pv.attr == 'parameters'): badc.append(c.lineno)
+    bad = [x for x in _stores(tree) if x.endswith('.parameters') or x.endswith('.quantized_data')]
+    goals.append(G('every-instruction-carries-an-emitted-parameters-object', 'transformation_instruction_generator.TransformationInstructionsGenerator._quant_params_to_transformation_insts', ok=bool(cs) and not badc and not bad, backend='ast-dataflow',
+                   inputs=inputs, observed=dict(constructions=len(cs), not_an_attribute_read=badc, stores=bad),
+                   clause='every qtyping.TransformationInst(...) in transformation_instruction_generator.py takes its parameters from an `<OpToTensorParams or instruction>.parameters` read; the file never assigns .parameters / .quantized_data'))
+    return goals
+
 def f16_ref_bits(v):
     """IEEE binary16 bits of round-to-nearest-even(v) computed WITHOUT numpy (CPython's struct 'e' packs a double with RNE; float32 -> double is exact)"""
     v = float(v)
@@ -271,7 +483,8 @@ def bounded(rep, M):
     # float16 rounding: numpy's astype(float16) against CPython's struct 'e' on boundary and regular values
     vals = [0.0, -0.0, 1.0, 1.0 + 2 ** -11, 1.0 + 3 * 2 ** -11, 1.0 + 2 ** -10, 65504.0, 65519.0, 65520.0, 1e6, -1e6, 2 ** -24, 2 ** -25, 1.5 * 2 ** -25, 2 ** -14, 6.1e-5, 0.1, -0.3, 3.14159, 1e-8, 123.456]
     vals += [float(np.float32(x)) for x in np.linspace(-70000, 70000, 2001)] + [float(np.float32(x)) for x in np.geomspace(1e-9, 1e5, 1500)]
-    arr = np.array(vals, np.float32); got = arr.astype(np.float16).view(np.uint16); fails = sum(1 for a, g in zip(arr, got) if f16_ref_bits(a) != int(g))
+    with np.errstate(all='ignore'): arr = np.array(vals, np.float32); got = arr.astype(np.float16).view(np.uint16)
+    fails = sum(1 for a, g in zip(arr, got) if f16_ref_bits(a) != int(g))
     rep.add_bounded('numpy float32 -> float16 cast (round to nearest even, overflow to inf, subnormals)', 'ties, subnormal and overflow boundaries + 3500 regular values, compared bit for bit with CPython struct "e"', len(vals), fails)
     # end to end on the real code: statistics -> parameters -> quantize_tensor -> independent decode -> dequantize in binary64
     qt = M.qtyping; cases = f2 = 0; worst = 0.0
@@ -292,6 +505,9 @@ def bounded(rep, M):
             if sc.size > 1: sc = sc.reshape(-1, 1); zp = zp.reshape(-1, 1)
             err = np.abs((codes - zp) * sc - data.astype(np.float64)) / sc; worst = max(worst, float(err.max()))
             if len(raw) != ((n + 1) // 2 if bits == 4 else n) or err.max() > (0.5 if sym else 1.0) * (1 + 1e-3) + 1e-3: f2 += 1
+    if E2E:
+        rep.add_bounded('registered materialize function -> quantize_tensor on the minimal op: stored byte length vs written type and shape', 'every constant with QUANTIZE_TENSOR / ADD_DEQUANTIZE of the materialize table (the structural cause is the obligation family "materialize")', E2E[0][0], E2E[0][1],
+                        note='failures here are the natively observed consequence of the refuted materialize obligations (INT8 tensor keeping its float32 bytes)')
     rep.add_bounded('init_tensor_min_max -> _get_tensor_quant_params -> quantize_tensor -> independent decode (binary32 arithmetic of the real code)', f'4/8 bit x sym/asym x per-tensor/per-channel x 4 shapes (odd and even sizes) x 3 contents; worst error {worst:.4f} steps', cases, f2)
     return fails + f2
 
@@ -308,14 +524,18 @@ CANARIES = [
     ('_round_and_clip: qmin + 1 -> qmin (bias no longer narrow)', cc.UQ, [('          qmin + 1,', '          qmin,')], 'bias', ['in8.result-is-clip(rint(bias/scale),qmin+1,qmax)', 'in8.result-in-narrow-range']),
     ('symmetric_quantize_bias_tensor: bias quantized with twice the returned scale', cc.UQ, [('scale=effective_output_scale,', 'scale=effective_output_scale * 2,')], 'bias', ['in8.pre-rounding-value-is-bias/scale']),
     ('float_casting.materialize_fc_conv: .astype(np.float16) dropped', cc.FC, [('num_bits=16, quantized_data=weight_content.astype(np.float16)', 'num_bits=16, quantized_data=weight_content')], 'fp16', ['FULLY_CONNECTED.explicit_dequantize-True.bias.stored-weight-is-content.astype(float16)']),
+    ('_get_tensor_transformation_params_wrapper: shared parameters keep the other tensor\'s quantized_data (the pre-fix behaviour: recomputation branch dropped)', cc.UTILS,
+     [('  elif isinstance(quant_params, qtyping.UniformQuantParams):', '  elif False:')], 'materialize',
+     ['CONCATENATION.srq-a8asym.constant-operands-x1.every-rewritten-constant-carries-its-own-quantized-data', 'SPLIT.srq-a8asym.constant-operands-x.no-activation-carries-quantized-data', 'RESHAPE.srq-a16sym.constant-operands-x.no-activation-carries-quantized-data']),
+    ('_get_tensor_quant_params: quantized data returned flattened', cc.UTILS, [('      quantized_data=quantized_vars,\n  )', '      quantized_data=quantized_vars.flatten(),\n  )')], 'materialize', ['CONV_2D.srq-a8asym.weights-only-constants.every-rewritten-constant-carries-its-own-quantized-data', 'ADD.srq-a8asym.constant-operands-x1.every-rewritten-constant-carries-its-own-quantized-data']),
     ('_get_tensor_quant_params: content quantized with other parameters than those returned', cc.UTILS, [('        tensor_content, quant_params\n    )', '        tensor_content, qtyping.UniformQuantParams(scale=scale * 2, zero_point=zp, num_bits=tensor_quant_config.num_bits, symmetric=tensor_quant_config.symmetric, quantized_dimension=quantized_dim)\n    )')], 'params', ['b8.sym.channelwise.constant.stored-data-is-uniform_quantize(content,returned-params)']),
 ]
 
-FAMILIES = ('lemmas', 'bias', 'params', 'pack', 'quantize_tensor', 'fp16')
+FAMILIES = ('lemmas', 'bias', 'params', 'pack', 'quantize_tensor', 'fp16', 'materialize', 'callsites')
 def families(M, only=None):
     fam = {'lemmas': lambda: fam_lemmas(M), 'bias': lambda: [g for g in cc.fam_bias(M) if 'C05' in g.props],
            'params': lambda: [g for g in cc.fam_params(M, [c for c in cc.PARAM_CONFIGS if c[3]]) if 'C05' in g.props],
-           'pack': lambda: fam_pack(M), 'quantize_tensor': lambda: fam_quantize_tensor(M), 'fp16': lambda: fam_fp16(M)}
+           'pack': lambda: fam_pack(M), 'quantize_tensor': lambda: fam_quantize_tensor(M), 'fp16': lambda: fam_fp16(M), 'materialize': lambda: fam_materialize(M), 'callsites': lambda: fam_callsites(M)}
     out = []
     for k in FAMILIES:
         if only is None or k in only:
@@ -350,6 +570,9 @@ def run(rep):
     rep.assume('float32/float64 arithmetic treated as real arithmetic in the decoding-error lemma and in the bias goals (x*(1/s) vs x/s, products of scales); the binary32 behaviour of the real code is sampled in a bounded stand-in')
     rep.assume('a bias whose rint(bias/scale) exceeds 2**63-1 (64-bit bias, 16-bit activations) is outside the cast obligation: the property exempts saturating values; see observation_int64_bias_saturation in the evidence')
     rep.assume('BLOCKWISE (emulated sub-channel) quantization and its transposed storage are outside the property text and not under contract')
+    rep.trust('CONTRACT CLAUSE requires(quantize_tensor): tensor.buffer != 0 and buffers[tensor.buffer].data is not None  <=>  quant_params.quantized_data is not None. '
+              'Not an assumption about the environment: it is established for every caller by the obligation families `materialize` (every registered materialize function x constant / activation operands) '
+              'and `callsites` (instruction generator, performer dispatch, insert_dequant, insert_quant pass `parameters` on unchanged); the table of `quantize_tensor` obligations is stated under it')
     try:
         goals = families(M)
     except symnp.Undecided as e:
@@ -357,7 +580,7 @@ def run(rep):
     res = cc.discharge(goals); cc.register(rep, 'C05', fns, goals, res)
     base = {g.id: r[0] for g, r in zip(goals, res)}
     fails = bounded(rep, M); saturation_note(rep, M)
-    if fails and all(v == 'proved' for v in base.values()): rep.errors.append('bounded stand-in disagrees with the proved obligations')
+    if (fails or (E2E and E2E[0][1])) and all(v == 'proved' for v in base.values()): rep.errors.append('bounded stand-in disagrees with the proved obligations')
     # covers
     s = z3.Solver(); mn, mx, x = z3.Reals('mn mx x'); Q = z3.Int('Q'); s.add(mn <= x, x <= mx, mn < 0, mx > 0, Q >= 7); rep.cover('lemmas.preconditions', s.check() == z3.sat)
     from vlib.symnp_ext import M_SYM
